@@ -183,3 +183,14 @@ func skipExt(n int64) graphsync.ExtensionData {
 
 var _ = basicnode.NewInt
 var _ peer.ID
+
+// exported helpers for the thread-level harnesses
+func ReqData(num int, exts map[graphsync.ExtensionName]datamodel.Node) *doubles.FakeRequestData {
+	return reqData(num, exts)
+}
+func ReqMsg(tid datatransfer.TransferID, restart, pull bool) datatransfer.Request {
+	return reqMsg(tid, restart, pull)
+}
+func ExtOf(m datatransfer.Message, names ...graphsync.ExtensionName) map[graphsync.ExtensionName]datamodel.Node {
+	return extOf(m, names...)
+}
